@@ -38,9 +38,12 @@ for sid in ids:
 with open(os.path.join(ROOT, "seeded", "RESULTS.md"), "w") as f:
     f.write("# Seeded faults: which check catches which change\n\n")
     f.write("Each fault was written by an independent sub-agent from the property text alone (round 1: m1, m2; round 2: m3-m5, steered towards other\n"
-            "mechanisms and towards inputs larger or more specific than a tiny exhaustive test), confirmed by the builder in a scratch worktree (demo passes\n"
+            "mechanisms and towards inputs larger or more specific than a tiny exhaustive test; round 3: m6, m7, code the property depends on indirectly and\n"
+            "faults that corrupt state for a later operation; round 4: m8, m9, subtle slips in the core functions the property names), confirmed by the builder in a scratch worktree (demo passes\n"
             "pristine, fails mutated, test-suite failing set unchanged) and then run through `tools/run_seeded.sh <id>` (quick tier).\n\n")
-    f.write("Detected: %d of %d.\n\n" % (ndet, len(ids)))
+    f.write("Detected: %d of %d.  Not detected: C06-m2 (obsolete: its line was rewritten by fix 02a7be4, the patch no longer applies) and C07-m7 (single-key\n"
+            "np.lexsort on encoded arrays not stable: sorting is not among the operations the C07 statement lists, not claimed).  Caught by a named engine-P\n"
+            "obligation (often in addition to a bounded signature): %d.\n\n" % (ndet, len(ids), sum(1 for r in rows if "engine P" in r)))
     f.write("| id | round | result | caught by | change | first VIOLATION lines |\n|---|---|---|---|---|---|\n")
     f.write("\n".join(rows) + "\n")
 print("detected", ndet, "of", len(ids))
